@@ -38,12 +38,19 @@ SameData(A, B) ==
        /\ \A k \in DOMAIN A[d].keys : A[d].keys[k] = B[d].keys[k]
 
 (* the same, except for the keys in X (set of <<db, key>>) *)
+(* a key that is live on either node is on both with the same value and version; a removed key that both nodes  *)
+(* still hold as a tombstone carries the same version on both (the next versioned write is judged against it); *)
+(* a tombstone on one node and no entry on the other are the same removed key                                  *)
+LiveIn(K, k) == k \in DOMAIN K /\ K[k][3]
 SameDataBut(A, B, X) ==
   /\ DOMAIN A = DOMAIN B
   /\ \A d \in DOMAIN A :
        /\ A[d].strategy = B[d].strategy
        /\ \A k \in (DOMAIN A[d].keys \cup DOMAIN B[d].keys) : <<d, k>> \notin X =>
-            (k \in DOMAIN A[d].keys /\ k \in DOMAIN B[d].keys /\ A[d].keys[k] = B[d].keys[k])
+            /\ (LiveIn(A[d].keys, k) \/ LiveIn(B[d].keys, k)) =>
+                  (k \in DOMAIN A[d].keys /\ k \in DOMAIN B[d].keys /\ A[d].keys[k] = B[d].keys[k])
+            /\ (k \in DOMAIN A[d].keys /\ k \in DOMAIN B[d].keys /\ ~A[d].keys[k][3] /\ ~B[d].keys[k][3]) =>
+                  A[d].keys[k][2] = B[d].keys[k][2]
 
 Converged(S) ==
   \A p \in Primaries(S) : \A n \in Alive(S) : SameDataBut(S[n].data, S[p].data, taint)
@@ -168,7 +175,7 @@ Dev_RemoveOnSecondaryLocalOnly ==
 Dev_SecondaryWriteAppliedLocally ==
   /\ "Dev_SecondaryWriteAppliedLocally" \in Devs
   /\ E.ev \in {"quiesce", "end"} /\ E.quiet /\ On("CONV")
-  /\ curop.op \in {"set", "set-safe", "create-user", "set-permissions"} /\ curop.at_secondary
+  /\ curop.op \in {"set", "set-safe", "create-user", "set-permissions", "remove"} /\ curop.at_secondary
   /\ Converged(E.state) = FALSE
   /\ taint' = taint \cup {OpKey}
   /\ (\A p \in Primaries(E.state) : \A n \in Alive(E.state) : SameDataBut(E.state[n].data, E.state[p].data, taint')) = TRUE
